@@ -1,6 +1,7 @@
 import numpy as np
 import scipy as sp
 
+from pygradflow.eval import EvalError
 from pygradflow.problem import Problem
 from pygradflow.util import sparse_zero
 
@@ -140,6 +141,9 @@ class ConstrainedProblem(Problem):
         slack_vals = np.zeros((num_slacks,))
 
         orig_cons_vals = self.problem.cons(orig_x)
+
+        if not np.isfinite(orig_cons_vals).all():
+            raise EvalError("Non-finite constraints", orig_x)
 
         # Ensure that initial solution satisfies variable bounds
         # of transformed problem even if constraints at
